@@ -2615,11 +2615,36 @@ func branch(n *node) {
 	}
 }
 
+// callResults returns a node for each of the n values returned by the call c, which
+// are in consecutive frame locations starting at the location of c.
+func callResults(c *node, n int) []*node {
+	res := make([]*node, n)
+	res[0] = c
+	ft := c.child[0].typ
+	for i := 1; i < n; i++ {
+		r := *c
+		r.findex = c.findex + i
+		switch {
+		case i < len(ft.ret):
+			r.typ = ft.ret[i]
+		case ft.rtype != nil && ft.rtype.Kind() == reflect.Func && i < ft.rtype.NumOut():
+			r.typ = valueTOf(ft.rtype.Out(i))
+		}
+		res[i] = &r
+	}
+	return res
+}
+
 func _return(n *node) {
 	child := n.child
 	def := n.val.(*node)
-	values := make([]func(*frame) reflect.Value, len(child))
-	for i, c := range child {
+	operands := child
+	if len(child) == 1 && isCall(child[0]) && len(def.typ.ret) > 1 {
+		// The operand is a call returning several values, as in "return f()".
+		operands = callResults(child[0], len(def.typ.ret))
+	}
+	values := make([]func(*frame) reflect.Value, len(operands))
+	for i, c := range operands {
 		switch t := def.typ.ret[i]; t.cat {
 		case errorT:
 			values[i] = genInterfaceWrapper(c, t.TypeOf())
@@ -2683,6 +2708,14 @@ func _return(n *node) {
 		case isCall(child[0]) && n.child[0].typ.id() == def.typ.ret[0].id():
 			// Calls are optmized as long as no type conversion is involved.
 			n.exec = nil
+		case len(operands) > 1:
+			// Store each value returned by the call in the corresponding result.
+			n.exec = func(f *frame) bltn {
+				for i, value := range values {
+					f.data[i].Set(value(f))
+				}
+				return nil
+			}
 		default:
 			// Regular return: store the value to return at to start of the frame.
 			v := values[0]
